@@ -7,6 +7,7 @@ the run thread's own transitions overlapped deterministically with listener rend
 command storms from one and two controller threads under seeded line-level delay injection
 (sys.monitoring), judged by invariants that hold under every linearisation.
 """
+from vlib.simharness import num
 import os
 import sys
 import threading
@@ -203,7 +204,7 @@ def _run_seq(case, ctx):
             notes = [n[0] for n in h.nlog[nfirst:]]
             seg = h.trace(hfirst)
             if c == "initialize" and out == "ok":
-                auto = StreamAutomaton(float(warm), float(end))
+                auto = StreamAutomaton(num(warm), num(end))
             # ---- outcome
             if exp["outcome"] == "refused":
                 if out == "ok":
@@ -398,8 +399,8 @@ def _run_gate(case, ctx):
             snap = h.snapshot()
             if not compare_traces(ctx, h.trace(first_h), exp["seg"], where, what=f"{scen}:continuation"):
                 return
-            if _abstract(snap) != pref.state or snap["clock"] != float(pref.ref.clock):
-                ctx.viol(f"{scen}:continuation-state-or-clock", {**where, "snapshot": snap, "want_state": pref.state, "want_clock": float(pref.ref.clock)})
+            if _abstract(snap) != pref.state or snap["clock"] != num(pref.ref.clock):
+                ctx.viol(f"{scen}:continuation-state-or-clock", {**where, "snapshot": snap, "want_state": pref.state, "want_clock": num(pref.ref.clock)})
                 return
             got_notes = [n[0] for n in h.nlog[first_n:] if n[0] != "TIME_CHANGED_EVENT"]
             if got_notes != exp["notes"]:
@@ -448,7 +449,7 @@ def _run_gate(case, ctx):
             findings, abstract = overlap.judge(h, warm, end, None, program_changed=True)
             if abstract != "EE":
                 findings.append((f"state:{abstract}", {"snapshot": snap}))
-            late = [r for r in h.hlog[first_h:] if r[1] > float(end)]
+            late = [r for r in h.hlog[first_h:] if r[1] > num(end)]
             if late:
                 findings.append(("event-later-than-the-replication-end-executed", {"events": late[:4]}))
             if not _report(ctx, scen, findings, where):
